@@ -214,8 +214,8 @@ pub fn dep_random(t: Tier) -> BoxedStrategy<DepCase> {
         ]
     };
     let path = prop_oneof![4 => prop::sample::select(PATHS.to_vec()).prop_map(String::from), 2 => random_paths(t).prop_map(|p| p.path), 1 => crate::engine::gen::small_alphabet(&DEP_ALPHABET, 4, 10)];
-    (half(), path, 0u8..14, half())
-        .prop_map(|(p, q, layout, extra)| {
+    (half(), path, 0u8..14, half(), crate::engine::dict::string_token(no_nul, "x"))
+        .prop_map(|(p, q, layout, extra, word)| {
             let text = match layout {
                 0..=5 => format!("{}:{}", p, q),
                 6 => format!("{}{}", p, q),
@@ -223,8 +223,8 @@ pub fn dep_random(t: Tier) -> BoxedStrategy<DepCase> {
                 8 => format!("{}:{}:", p, q),
                 9 => format!(":{}:{}", p, q),
                 10 => format!("{}:{}:{}", p, extra, q),
-                11 => format!("{}:{}:{}", p, q, extra),
-                12 => format!("{}:{}{}", p, q, extra),
+                11 => format!("{}:{}:{}", p, q, word.trim_start_matches(':')),
+                12 => format!("{}:{}{}", p, q, if word.starts_with(':') { word.clone() } else { format!(":{}", word) }),
                 _ => format!("{}{}:{}", p, extra, q),
             };
             DepCase { text }
